@@ -117,15 +117,18 @@ func genProj(r *rng, spare int) *Proj {
 		// a generated file of an earlier target consumed as a source
 		if i > 0 && r.chance(25) {
 			d := p.Tgts[r.below(i)]
-			if len(d.Gens) > 0 && !contains(t.Srcs, d.Gens[0]) {
-				t.Srcs = append(t.Srcs, d.Gens[0])
+			if len(d.Gens) > 0 {
+				// any of the generator's outputs, not only the first one declared
+				if g := d.Gens[r.below(len(d.Gens))]; !contains(t.Srcs, g) {
+					t.Srcs = append(t.Srcs, g)
+				}
 			}
 		}
 		ng := 1
 		if r.chance(15) {
 			ng = 0
-		} else if r.chance(25) {
-			ng = 2
+		} else if r.chance(35) {
+			ng = 2 + r.below(2) // multi-output generators: some outputs (logs) are nobody's source
 		}
 		for k := 0; k < ng; k++ {
 			t.Gens = append(t.Gens, pkgPath(pkg, fmt.Sprintf("%s.%d.out", t.Name, k)))
@@ -149,6 +152,7 @@ func genProj(r *rng, spare int) *Proj {
 		}
 		p.Tgts = append(p.Tgts, t)
 	}
+	p.ensureLinkOnlyConsumer(r)
 	// one default target per package: the last live target of the package
 	for i := len(p.Tgts) - 1; i >= 0; i-- {
 		t := p.Tgts[i]
@@ -158,6 +162,65 @@ func genProj(r *rng, spare int) *Proj {
 		}
 	}
 	return p
+}
+
+// ensureLinkOnlyConsumer: half of the projects get a consumer that reaches a multi-output generator ONLY through
+// `sources=[generated file]` (no deps= edge: the dependency exists through Project.link alone), where the consumed output
+// is declared after an output nobody consumes.
+func (p *Proj) ensureLinkOnlyConsumer(r *rng) {
+	if len(p.Tgts) < 2 || !r.chance(50) {
+		return
+	}
+	gi := r.below(len(p.Tgts) - 1)
+	g := p.Tgts[gi]
+	if g.Removed {
+		return
+	}
+	for len(g.Gens) < 2+r.below(2) {
+		g.Gens = append(g.Gens, pkgPath(g.Pkg, fmt.Sprintf("%s.%d.out", g.Name, len(g.Gens))))
+	}
+	// the position of the consumed output: never the first; every output before it stays unconsumed by this consumer
+	k := 1 + r.below(len(g.Gens)-1)
+	for ci := gi + 1; ci < len(p.Tgts); ci++ {
+		c := p.Tgts[ci]
+		if c.Removed || contains(c.Deps, g.Label()) {
+			continue
+		}
+		consumes := false
+		for _, s := range c.Srcs {
+			if contains(g.Gens, s) {
+				consumes = true
+			}
+		}
+		if consumes {
+			continue
+		}
+		c.Srcs = append(c.Srcs, g.Gens[k])
+		// the first output is a log: drop it from every consumer
+		for _, t := range p.Tgts {
+			t.Srcs = remove(t.Srcs, g.Gens[0])
+		}
+		return
+	}
+}
+
+// linkOnly: (generator, consumer) pairs where the consumer reads an output of the generator and does not depend on it explicitly
+func (p *Proj) linkOnly() [][2]*Tgt {
+	var out [][2]*Tgt
+	for _, g := range p.live() {
+		for _, c := range p.live() {
+			if c == g || contains(c.Deps, g.Label()) {
+				continue
+			}
+			for _, s := range c.Srcs {
+				if contains(g.Gens, s) {
+					out = append(out, [2]*Tgt{g, c})
+					break
+				}
+			}
+		}
+	}
+	return out
 }
 
 // dependents: the live targets that list l as a dependency or consume one of its generated files
@@ -638,6 +701,19 @@ func (g *gen) tplCrashInBody() {
 	g.add(g.build(root))
 }
 
+// tplLinkOnly: change an input of a generator, build a consumer that depends on it only through a generated source
+func (g *gen) tplLinkOnly() {
+	pairs := g.p.linkOnly()
+	if len(pairs) == 0 {
+		g.tplPartial()
+		return
+	}
+	pr := pairs[g.r.below(len(pairs))]
+	g.add(g.build(pr[1].Label()))
+	g.semanticEdit(pr[0])
+	g.add(g.build(pr[1].Label()))
+}
+
 // tplDelGen: delete a generated file, build a dependent
 func (g *gen) tplDelGen() {
 	t, d := g.chainPick()
@@ -689,6 +765,10 @@ func (g *gen) tplNoop() {
 	g.add(g.build(root))
 	for i := 0; i < g.r.below(4); i++ {
 		g.noopEdit(root)
+	}
+	if g.r.chance(30) {
+		// a collection changes no input either
+		g.add(Op{Kind: "gc", PreferIndex: g.r.chance(50)})
 	}
 	op := g.build(root)
 	op.ExpectNoExec = true
@@ -856,8 +936,10 @@ func genHistory(r *rng, prop string, nops int) *History {
 		switch prop {
 		case "C01":
 			switch {
-			case x < 22:
+			case x < 18:
 				g.tplPartial()
+			case x < 24:
+				g.tplLinkOnly()
 			case x < 30:
 				g.tplFailFix()
 			case x < 38:
@@ -930,4 +1012,124 @@ func genHistory(r *rng, prop string, nops int) *History {
 		}
 	}
 	return g.h
+}
+
+// ---------------------------------------------------------------- systematic crash points (C03)
+
+// enumCrashHistories: every named hook point × target (function targets, their default label, their sources) ×
+// {the record does not exist yet, the record is being replaced} × {load phase, run phase}, each as its own short history
+// ending with the recovery build; plus the load of a freshly added target and of a fresh project.
+func enumCrashHistories(r *rng, nproj int, maxLabels int) []*History {
+	var out []*History
+	for pi := 0; pi < nproj; pi++ {
+		p := genProj(r, 1)
+		root := p.topRoot()
+		cl := p.closure(root)
+		var fns, srcs []string
+		for _, t := range p.live() {
+			if !cl[t.Label()] || t.Always {
+				continue
+			}
+			fns = append(fns, t.Label())
+			for _, s := range t.Srcs {
+				if l := sourceLabelOf(s); !contains(srcs, l) {
+					srcs = append(srcs, l)
+				}
+			}
+		}
+		sort.Strings(fns)
+		sort.Strings(srcs)
+		pick := func(xs []string, n int) []string {
+			for len(xs) > n {
+				i := r.below(len(xs))
+				xs = append(xs[:i:i], xs[i+1:]...)
+			}
+			return xs
+		}
+		fns, srcs = pick(fns, maxLabels), pick(srcs, (maxLabels+1)/2)
+		mk := func(note string, ops ...Op) {
+			out = append(out, &History{Template: "C03-enum: " + note, Proj: p.clone(), Ops: ops})
+		}
+		crash := func(phase, hook, label string) Op {
+			return Op{Kind: "build", Target: root, CrashPhase: phase, CrashHook: hook, CrashLabel: label,
+				Note: fmt.Sprintf("crash at %s of %s (%s phase)", hook, label, phase)}
+		}
+		rebuild := Op{Kind: "build", Target: root}
+		// an edit that makes the build re-execute (and re-save) `label`
+		force := func(label string) *Op {
+			if t := p.tgt(label); t != nil {
+				return &Op{Kind: "edit", Edit: &Edit{Kind: "code", Target: label}}
+			}
+			for _, t := range p.live() {
+				for _, s := range t.Srcs {
+					if sourceLabelOf(s) != label {
+						continue
+					}
+					switch {
+					case p.isGenerated(s):
+						for _, g := range p.live() {
+							if contains(g.Gens, s) {
+								return &Op{Kind: "edit", Edit: &Edit{Kind: "code", Target: g.Label()}}
+							}
+						}
+					case p.isDir(s):
+						return &Op{Kind: "edit", Edit: &Edit{Kind: "create", Path: s + "/z.txt", Text: "forced\n"}}
+					default:
+						return &Op{Kind: "edit", Edit: &Edit{Kind: "content", Path: s, Text: "forced\n"}}
+					}
+				}
+			}
+			return nil
+		}
+		fnHooks := []string{"sc", "sw", "sr", "bb", "bw", "ba", "rs", "sc-after-rs", "sw-after-rs", "sr-after-rs"}
+		srcHooks := []string{"bb", "ba", "rs", "sc", "sw", "sr"}
+		loadHooks := []string{"sc", "sw", "sr"}
+		for _, l := range fns {
+			for _, h := range loadHooks {
+				mk("first load, "+h, crash("load", h, l), rebuild)
+				mk("load over an existing record, "+h, rebuild, crash("load", h, l), rebuild)
+			}
+			for _, h := range fnHooks {
+				mk("first execution, "+h, crash("run", h, l), rebuild)
+				if f := force(l); f != nil {
+					mk("re-execution, "+h, rebuild, *f, crash("run", h, l), rebuild)
+				}
+			}
+		}
+		for _, l := range srcs {
+			for _, h := range srcHooks {
+				mk("first evaluation of a source, "+h, crash("run", h, l), rebuild)
+				if f := force(l); f != nil {
+					mk("re-evaluation of a source, "+h, rebuild, *f, crash("run", h, l), rebuild)
+				}
+			}
+		}
+		// a target added to an existing project: its record is saved for the first time by the load
+		for _, t := range p.Tgts {
+			if !t.Removed {
+				continue
+			}
+			ok := true
+			for _, d := range t.Deps {
+				if dt := p.tgt(d); dt == nil || dt.Removed {
+					ok = false
+				}
+			}
+			if !ok {
+				continue
+			}
+			add := Op{Kind: "edit", Edit: &Edit{Kind: "addtarget", Target: t.Label()}}
+			for _, h := range loadHooks {
+				c := crash("load", h, t.Label())
+				c.Target = t.Label()
+				mk("load of a freshly added target, "+h, rebuild, add, c, Op{Kind: "build", Target: t.Label()})
+			}
+			for _, h := range fnHooks {
+				c := crash("run", h, t.Label())
+				c.Target = t.Label()
+				mk("first execution of a freshly added target, "+h, rebuild, add, c, Op{Kind: "build", Target: t.Label()})
+			}
+		}
+	}
+	return out
 }
